@@ -104,6 +104,8 @@ def evaluate_complete(case):
 def produced_cases(draw, tier):
     k = draw(st.sampled_from([1, 2, 2, 3, 3, 4] if tier == "quick" else [1, 2, 3, 3, 4, 4, 5]))
     how = draw(st.sampled_from(["valid", "coding", "latter_map", "matrix", "nasty"]))
+    if how in ("valid", "coding", "latter_map") and draw(st.sampled_from([False] * 9 + [True])):
+        k = draw(st.sampled_from([6, 7, 8, 8]))  # vertex indices beyond 2^15
     if how == "matrix" and k > 4:
         k = 4
     if how == "nasty" and k > 3:
@@ -112,12 +114,14 @@ def produced_cases(draw, tier):
     if how in ("valid", "coding"):
         t = draw(st.integers(1, 3))
         dens = {1: None, 2: [0.6, 0.8, 0.9, 0.97], 3: [0.9, 0.97, 1.0]}[t] if how == "coding" else None
+        if k >= 6 and dens is None:
+            dens = [0.5, 0.8, 0.97]
         case["mask"] = "".join(map(str, draw(gens.masks(k, dens))))
         case["t"] = t
     else:
         case["rows"] = draw(gens.arc_subsets(k, k))["rows"]
         case["order_seed"] = draw(st.integers(0, 2 ** 32 - 1))
-        case["threshold"] = draw(st.sampled_from([None, None, 1, 2]))
+        case["threshold"] = None if k >= 5 else draw(st.sampled_from([None, None, 1, 2]))  # trimming is quadratic
         case["steps"] = draw(st.integers(1, 4))
         case["ins"], case["dele"] = draw(st.booleans()), draw(st.booleans())
     return case
@@ -205,7 +209,8 @@ SUBCHECKS = [
                                                            lambda i, tier: {"k": i + 1}), shards=(6, 7),
              exhaustive_space="complete accessors of order 1..6 (7 thorough), every entry", rule=RULE),
     SubCheck("produced_graphs", evaluate_produced, strategy=produced_cases, examples=(1200, 12000), shards=(8, 16),
-             floors={"how:valid": 80, "how:coding": 80, "how:latter_map": 80, "how:matrix": 80, "how:nasty": 80},
+             floors={"how:valid": 80, "how:coding": 80, "how:latter_map": 80, "how:matrix": 80, "how:nasty": 80,
+                     "k=8": 6},
              rule=RULE),
 ]
 
